@@ -634,10 +634,12 @@ func c03R4(c *Ctx) {
 		}
 	}
 	c.Floor("C03.R4", "WriteMsg calls in Handle.Write", nCalls, 1)
+	var peelChunks []*ssa.Slice // second recognised shape: for rest := b; len(rest) > 0; rest = rest[len(chunk):] { chunk := rest[:min(K, len(rest))] }
 	if len(loops) == 0 {
-		// re-slicing form or no loop at all: only the error/length discipline below can be checked
-		c.Undecided("C03.R4", name+"#chunk-loop", "no counted chunk loop of the recognised shape (for i := i0; i < len(b); i += K { WriteMsg(b[i:end]) }) found; other shapes are outside the recognised idioms")
-		return
+		if !c03Peel(c, fn, name, maxPT, writeMsgID, &peelChunks) {
+			c.Undecided("C03.R4", name+"#chunk-loop", "no chunk loop of a recognised shape found (counted: for i := i0; i < len(b); i += K { WriteMsg(b[i:end]) }; peeling: for rest := b; len(rest) > 0; rest = rest[len(chunk):] { WriteMsg(rest[:min(K, len(rest))]) }); other shapes are outside the recognised idioms")
+			return
+		}
 	}
 	for _, lc := range loops {
 		cons := name + "#chunk-loop"
@@ -745,6 +747,20 @@ func c03R4(c *Ctx) {
 							if sub.X == lc.sl.High && sub.Y == lc.sl.Low {
 								okAcc = true
 							}
+						}
+					}
+					if lc, ok := strip(d).(*ssa.Call); ok {
+						if b, isB := lc.Call.Value.(*ssa.Builtin); isB && b.Name() == "len" {
+							for _, ch := range peelChunks {
+								if strip(lc.Call.Args[0]) == ssa.Value(ch) {
+									okAcc = true
+								}
+							}
+						}
+					}
+					for _, ch := range peelChunks {
+						if ch.High != nil && d == ch.High {
+							okAcc = true
 						}
 					}
 				}
@@ -932,4 +948,84 @@ func windowLoadForCheck(r ssa.Instruction, checkID string) bool {
 		}
 	}
 	return true
+}
+
+// c03Peel recognises the slice-peeling form of the chunk loop and checks the same four
+// conditions on it: starts with the whole buffer, advances by exactly the chunk sent,
+// chunk width <= MaxPlaintextSize, last chunk bounded by what is left.
+func c03Peel(c *Ctx, fn *ssa.Function, name string, maxPT int64, writeMsgID string, chunks *[]*ssa.Slice) bool {
+	P := c.P
+	found := false
+	for _, cs := range callSitesIn(fn, false, writeMsgID) {
+		call, ok := cs.(*ssa.Call)
+		if !ok {
+			continue
+		}
+		chunk, ok := strip(call.Call.Args[1]).(*ssa.Slice)
+		if !ok || chunk.Low != nil || chunk.High == nil {
+			continue
+		}
+		rest, ok := chunk.X.(*ssa.Phi)
+		if !ok {
+			continue
+		}
+		found = true
+		*chunks = append(*chunks, chunk)
+		cons := name + "#chunk-loop"
+		site := P.InstrPos(call)
+		// width and bound: High = min(K, len(rest))
+		width := int64(-1)
+		bounded := false
+		if mc, ok := chunk.High.(*ssa.Call); ok {
+			if b, isB := mc.Call.Value.(*ssa.Builtin); isB && b.Name() == "min" {
+				for _, a := range mc.Call.Args {
+					if n, isC := constInt(a); isC {
+						width = n
+					}
+					if lc, ok := strip(a).(*ssa.Call); ok {
+						if lb, isB := lc.Call.Value.(*ssa.Builtin); isB && lb.Name() == "len" && strip(lc.Call.Args[0]) == ssa.Value(rest) {
+							bounded = true
+						}
+					}
+				}
+			}
+		}
+		// init and step of rest
+		startOK, stepOK := false, false
+		for _, e := range rest.Edges {
+			if sl, ok := strip(e).(*ssa.Slice); ok && sl.X == ssa.Value(rest) {
+				// rest = rest[len(chunk):] (or rest[h:] with the same h)
+				if sl.High == nil && sl.Low != nil {
+					if sl.Low == chunk.High {
+						stepOK = true
+					}
+					if lc, ok := strip(sl.Low).(*ssa.Call); ok {
+						if lb, isB := lc.Call.Value.(*ssa.Builtin); isB && lb.Name() == "len" && strip(lc.Call.Args[0]) == ssa.Value(chunk) {
+							stepOK = true
+						}
+					}
+				}
+				continue
+			}
+			// the initial value: the whole buffer (a parameter, or a full copy / conversion of one), not a sub-slice
+			root, sels := accessPath(e)
+			whole := true
+			for _, sl := range sels {
+				if sl.Index != "" {
+					whole = false
+				}
+			}
+			if _, isSlice := strip(e).(*ssa.Slice); isSlice {
+				whole = false
+			}
+			_ = root
+			startOK = whole
+		}
+		c.Check(startOK, "C03.R4", cons+":start", site, "first chunk starts at offset 0", "the peeling loop does not start with the whole buffer: its first bytes are never sent")
+		c.Check(stepOK, "C03.R4", cons+":step", site, "advances by exactly the chunk sent", "the peeling loop does not advance by exactly the chunk it sent: bytes are skipped or sent twice")
+		c.Check(width > 0 && width <= maxPT, "C03.R4", cons+":width", site, "chunk width <= MaxPlaintextSize",
+			fmt.Sprintf("chunk width %d exceeds MaxPlaintextSize %d (WriteMsg would refuse every full chunk)", width, maxPT))
+		c.Check(bounded, "C03.R4", cons+":bound", site, "last chunk bounded by what is left", "the end of a chunk is not bounded by the length of what is left")
+	}
+	return found
 }
